@@ -62,7 +62,11 @@ static std::pair<std::string, std::string> check(int pers, const std::string &rq
         }
         return {"", ""};
     };
-    auto res = inner(); if (!res.first.empty()) res.first += site; return res;
+    auto res = inner();
+    if (!res.first.empty()) { // response-side trace points (T1 T6 T7) only qualify response-side failures, T5 only request-side ones
+        bool res_side = res.first.find("response") != std::string::npos || res.first == "transaction_count" || res.first == "next_message_not_intact", req_side = res.first.find("request") != std::string::npos || res.first == "transaction_count" || res.first == "next_message_not_intact";
+        for (int t : {1, 5, 6, 7}) if (r.trace_hits.count(t) && (t == 5 ? req_side : res_side)) res.first += "+T" + std::to_string(t); }
+    return res;
 }
 
 static void campaign() {
